@@ -1,43 +1,58 @@
 """C12 - every evaluated rule yields exactly one well-formed, accounted outcome.
 
-Part A (rule sets).  A fixed palette of real ``@rule``-decorated functions (4 slots x 4 decorations,
-two synthetic modules, created once per process) whose bodies are driven by a per-case table.  A
-case assigns a behaviour (or "absent") to every slot, picks a driver and the formatter options, runs
-the real evaluator / formatter and locates every rule in the result by a counting argument:
+Rule sets.  A fixed palette of callables decorated by the real ``@rule`` (created once per process,
+forced hashes so that the engine visits them in index order in every process) whose bodies are driven
+by a per-case table.  A case assigns a behaviour to some palette rules, picks a driver and the
+formatter options, runs the real evaluator / formatter and locates every rule in the result by a
+counting argument:
 
     listed type (fail, pass, info, fingerprint, none)  -> exactly one entry, under the heading of
                                                           its type, carrying key / component / tags /
                                                           links / <type>_id as declared
     metadata                                           -> its fields in system.metadata
-    unmet dependency                                   -> exactly one entry in ``skips`` naming the
-                                                          missing dependencies
+    unmet dependency                                   -> exactly one entry in ``skips`` naming exactly
+                                                          the missing dependencies
     raise / non-Response return / invalid response     -> broker.exceptions
     deliberate skip, disabled                          -> nowhere
 
 and the formatter shows exactly the types its options select.
 
-Part B (constructors).  Every response class x key shape x keyword name x payload size around a
-patched ``max_detail_length``.
+Families: A (all assignments to 3/4 slots; full decoration product on 2/3 slots), S (all option
+combinations), W (10-12 rules in one evaluation), D (a rule depending on a rule), T (declaration shapes:
+no dependencies, tags as set / tuple / two tags, two link categories, explicit empty tags and links;
+keys with %, |, quotes, non-ASCII), K (metadata keys named like a section heading), H (two-step
+histories in one process: fresh objects, same broker, same evaluator object), B (constructors).
 
-Weaker readings taken on purpose (the statement is loose there):
-  * ``make_metadata_key`` is not among the statement's types: only "its value is visible at top level
-    of an unfiltered response, and it is in no list / skips / exceptions" is demanded; when two rules
-    use the same metadata key (or the same metadata field) either value is accepted.
-  * an empty-string key may be rejected or accepted (the code documents it as "missing", the
-    statement says "missing or non-string").
+Readings (the statement is loose there; LESSONS.md point 7 re-checked):
+  * ``make_metadata_key`` is not among the statement's types but it is a response a rule may return, so
+    the rule must end somewhere: its value must be visible at top level of an unfiltered response, and
+    it is in no list / skips / exceptions.  When two rules use the same metadata key (or the same
+    metadata field) either value is accepted (inherent to a key -> value table).
+  * a missing key is ``None`` or an empty string (the code's own message calls it "missing"); every
+    non-string key - falsy or not - is rejected.
   * "rejected as an error" = the constructor raises an ``Exception`` (any class; the code raises
     ``ValidationException``); inside a rule that means an entry in ``broker.exceptions``.
-  * ``make_metadata_key`` overrides ``adjust_for_length`` on purpose: for it an oversize value may
-    be kept or stubbed.
+  * ``make_metadata_key`` overrides ``adjust_for_length`` explicitly: for it an oversize value may
+    be kept (the code's documented choice) or stubbed (the statement's letter).
   * ``links`` of a rule declared without links may be reported as ``{}`` or ``None``; extra keys in a
-    report entry are allowed; a heading that is selected but empty may be present or absent.
-  * the size of the details is what the code documents: ``len(str(<response dict>))``; "exceeds"
-    is strict.
+    report entry are allowed; a heading that is selected but empty may be present or absent; the order
+    of several tags is free (they are kept in a set).
+  * the size of the details: the code documents ``len(str(<response dict>))`` (characters), the
+    configuration file says "bytes".  Both agree for ASCII.  For non-ASCII payloads: more characters than
+    the limit => stub; no more bytes than the limit => kept; in between either; the stub's length
+    may be either count.  "exceeds" is strict.
+  * ``-F``: option help ("dropped with -m") and man page ("dropped with -m or -f") agree that -m wins;
+    without -m either reading (fail only / dropped) is accepted.
+  * a rule whose dependency is another rule: it either runs or gets a skip entry naming that rule,
+    according to whether the other rule's value is in the broker (observed) - which outcomes of a rule
+    count as "available" is C02's subject.
+  * tags given as a ``str`` are outside the documented type (list of strings) and not enumerated.
 """
 import argparse
 import io
 import itertools
 import json
+import re
 import sys
 import types
 
@@ -45,19 +60,22 @@ from mc.result import Result
 
 ID = "C12"
 LEVEL = "exploration"
-RULE = ("Part A: every assignment of {absent, 22 behaviours (incl. required / at-least-one / both kinds of dependency missing)} to 3 (quick) / 4 (thorough) rule slots with slot-fixed "
-        "decorations, plus every assignment over the full behaviour x {no tags/links, tag, link, both} alphabet (+ an oversize fail and an oversize metadata response) to "
-        "2 / 3 slots, each run through SingleEvaluator serial + incremental, JsonFormat (plain, render_content) and "
-        "YamlFormat (quick: rule sets of <= 2 rules) with everything shown; Part S: every multiset of <= 3 / <= 4 outcome kinds x every "
-        "(missing, show_rules subset) x {JsonFormat, YamlFormat, JsonFormatterAdapter, YamlFormatterAdapter}; "
-        "Part B: every response class x key shape x kwarg name x payload kind x size limit-2..limit+2. "
-        "Non-trivial: A = at least two rules of the case were located in the result; S = the options hid at least "
-        "one rule and showed at least one; B = validation or the length limit fired")
+RULE = ("A: every assignment of {absent, 22 behaviours (incl. required / at-least-one / both kinds of dependency "
+        "missing)} to 3 (quick) / 4 (thorough) rule slots with slot-fixed decorations, plus every assignment over "
+        "behaviour x {no tags/links, tag, link, both} (+ oversize fail / metadata, four more falsy non-responses) to "
+        "2 / 3 slots, each through SingleEvaluator serial + incremental, InsightsEvaluator, JsonFormat (plain, "
+        "render_content) and YamlFormat with everything shown; S: every multiset of <= 3 / <= 4 outcome kinds x "
+        "every (missing, show_rules subset[, -F]) x {JsonFormat, YamlFormat, JsonFormatterAdapter, "
+        "YamlFormatterAdapter}; W: 10-12 rules at once (uniform, and every single deviation from all-fail); "
+        "D: every behaviour of a rule x a rule depending on it; T: declaration shapes x odd keys; K: metadata keys "
+        "named like section headings; H: all two-step histories of one-rule sets (fresh objects / same broker / same "
+        "evaluator); B: every response class x key shape x kwarg name x payload kind x size limit-2..limit+2, "
+        "limit 0. Non-trivial: at least two rules located (A, W, D, H), options hid one rule and showed one (S), "
+        "validation or the limit fired (B), always for T / K")
 ASSUMPTIONS = [
-    "rules of one case have no dependencies on each other; rule bodies are callables decorated by the real @rule "
-    "whose hash is their slot number, so the engine runs them in slot order in every process (measured: counter "
-    "cases_bodies_not_run_in_slot_order); the oracle is order-insensitive and every behaviour visits every slot, so "
-    "every sequence of behaviours is executed",
+    "rule bodies are callables decorated by the real @rule whose hash is their palette index, so the engine runs "
+    "them in index order in every process (measured: counter cases_bodies_not_run_in_slot_order); the oracle is "
+    "order-insensitive and every behaviour visits every slot, so every sequence of behaviours is executed",
     "components are a palette created once per process; behaviours come from a table that is rebuilt for every "
     "case, dr.ENABLED is restored after every case; nothing else in the dr registries is touched",
     "the default stdout sink of a formatter built by an adapter is replaced by a buffer; any other sink is left "
@@ -66,53 +84,91 @@ ASSUMPTIONS = [
     "bounded: no counterexample within the stated alphabets, nothing more",
 ]
 BOUNDS = {
-    "quick": {"mixed_slots": 3, "full_slots": 2, "behaviours": 23, "full_family_extra_behaviours": 2, "decorations": 4, "yaml_max_rules_part_a": 2,
+    "quick": {"mixed_slots": 3, "full_slots": 2, "behaviours": 23, "full_family_extra_behaviours": 6,
+              "decorations": 4, "yaml_max_rules_part_a": 2, "wide_rules": [10, 11, 12],
               "select_multiset_max": {"json": 3, "json-adapter": 2, "yaml": 2, "yaml-adapter": 2},
-              "select_options": 128, "constructor_limit": 64, "constructor_sizes": "limit-2..limit+2"},
-    "thorough": {"mixed_slots": 4, "full_slots": 3, "behaviours": 23, "full_family_extra_behaviours": 2, "decorations": 4, "yaml_max_rules_part_a": 4,
+              "select_options": 128, "constructor_limit": [96, 0], "constructor_sizes": "limit-2..limit+2"},
+    "thorough": {"mixed_slots": 4, "full_slots": 3, "behaviours": 23, "full_family_extra_behaviours": 6,
+                 "decorations": 4, "yaml_max_rules_part_a": 3, "wide_rules": [10, 11, 12],
                  "select_multiset_max": {"json": 4, "json-adapter": 4, "yaml": 4, "yaml-adapter": 3},
-                 "select_options": 128, "constructor_limit": 64, "constructor_sizes": "limit-2..limit+2"},
+                 "select_options": 128, "constructor_limit": [96, 0], "constructor_sizes": "limit-2..limit+2"},
 }
 CAP_S = {"quick": 150, "thorough": 1800}
-TECHNIQUE = ("bounded exhaustive enumeration of rule sets x drivers x formatter options executed against the real "
-             "evaluator and formatters; counting-argument oracle locating every rule in the output")
+TECHNIQUE = ("bounded exhaustive enumeration of rule sets x drivers x formatter options (and two-step histories) executed "
+             "against the real evaluator and formatters; counting-argument oracle locating every rule in the output")
 LEVEL_TEXT = ("Every rule set of <= 3 (quick) / <= 4 (thorough) rules over an alphabet with one symbol per kind of return "
-              "value / dependency situation (shared keys, types, modules) is evaluated with every evaluator-based driver, "
-              "and every (missing, show_rules) option combination is applied to every multiset of outcome kinds; every "
+              "value / dependency situation (shared keys, types, modules, names) is evaluated with every evaluator-based "
+              "driver, every (missing, show_rules) option combination is applied to every multiset of outcome kinds, sets "
+              "of 10-12 rules, dependent rules, declaration shapes and two-step histories are enumerated, and every "
               "response constructor is called with every key shape, reserved name and payload size around the limit. "
               "The statement is 'no counterexample within the bound'.")
 LEVEL_NOTE = ("Trusted: the harness' own locating of rules in the parsed JSON / YAML output (YAML python tags are read as "
-              "plain data); one execution order per rule set (slot order; all behaviour sequences are covered by the tuples); other formatters "
-              "(text, html, markdown, syslog, junit) do not derive from the evaluator and are out of scope.")
+              "plain data); one execution order per rule set (index order; all behaviour sequences are covered by the "
+              "tuples); other formatters (text, html, markdown, syslog, junit) do not derive from the evaluator and are "
+              "out of scope.")
 
 # ---- alphabets ---------------------------------------------------------------------------------
 
 PKG = "verif_c12"
-MOD = {"A": PKG + ".alpha", "B": PKG + ".beta"}
-SLOTS = [("A", "r0"), ("A", "r1"), ("B", "r0"), ("B", "r1")]     # slot -> (module, simple-name stem)
+MODS = {"A": PKG + ".alpha", "B": PKG + ".beta", "C": PKG + ".sub.alpha", "W": PKG + ".wide"}
 LINKS = {"kcs": ["https://access.example.com/solutions/1"]}
-DECOS = {"p": ([], None), "t": (["t1"], None), "l": ([], LINKS), "tl": (["t1"], LINKS)}
+LINKS2 = {"kcs": ["https://access.example.com/solutions/1"],
+          "jira": ["https://issues.example.com/A-1", "https://issues.example.com/A-2"]}
+# name -> (tags argument, links argument, reported tags, reported links); None = argument not given
+DECOS = {"p": (None, None, [], {}), "t": (["t1"], None, ["t1"], {}), "l": (None, LINKS, [], LINKS),
+         "tl": (["t1"], LINKS, ["t1"], LINKS),
+         "tset": (set(["t1"]), None, ["t1"], {}), "ttuple": (("t1",), None, ["t1"], {}),
+         "ttwo": (["t1", "t2"], None, ["t1", "t2"], {}), "ltwo": (None, LINKS2, [], LINKS2),
+         "empty": ([], {}, [], {})}
 DECO_ORDER = ["p", "t", "l", "tl"]
 SLOT_DECO = ["p", "tl", "t", "l"]                                # decoration of slot i in the "mixed" family
+N_SLOTS = 4
+WIDE = list(range(4, 16))                                        # w0 .. w11 (w1 is a prefix of w10, w11)
+YDEP, NODEPS = 16, 17
+SHAPED = {18: "tset", 19: "ttuple", 20: "ttwo", 21: "ltwo", 22: "empty"}
+# index -> (module, simple name, shape).  Slots 0/2 and 1/3 have the same simple name in different modules;
+# slots 0/1/3 have the same base module name ("alpha"), slot 3 in another package.
+RULES = {0: ("A", "r0", "std"), 1: ("A", "r1", "std"), 2: ("B", "r0", "std"), 3: ("C", "r1", "std"),
+         YDEP: ("B", "ydep", "on_rule"), NODEPS: ("A", "nodeps", "nodeps")}
+for _i in WIDE:
+    RULES[_i] = ("W", "w%d" % (_i - 4), "std")
+for _i, _d in SHAPED.items():
+    RULES[_i] = ("B", _d, "std")
+
+
+def fixed_deco(idx):
+    if idx in SHAPED:
+        return SHAPED[idx]
+    if idx in WIDE:
+        return DECO_ORDER[idx % 4]
+    return "p"
+
 
 KEYED = {"fail": ("rule", "make_fail", "error_key"), "pass": ("pass", "make_pass", "pass_key"),
          "info": ("info", "make_info", "info_key"), "fingerprint": ("fingerprint", "make_fingerprint", "fingerprint_key")}
 HEADING = {"rule": "reports", "fingerprint": "fingerprints", "pass": "pass", "info": "info", "none": "none"}
+SECTION_NAMES = ["reports", "fingerprints", "skips", "system", "analysis_metadata", "pass", "info", "none"]
 LISTED_BEHS = ["fail:K1", "fail:K2", "pass:K1", "pass:K2", "info:K1", "info:K2",
                "fingerprint:K1", "fingerprint:K2", "none"]
 OTHER_BEHS = ["metadata", "metadata_key:K1", "metadata_key:K2", "nonresp_dict", "nonresp_str", "nonresp_zero",
               "raise", "invalid", "skip", "unmet_req", "unmet_any", "unmet_both", "disabled"]
 BEHS = LISTED_BEHS + OTHER_BEHS                                  # 22 + "absent" = 23 symbols per slot
-# responses just over the *configured* max_detail_length flowing through the evaluator ('full' family only)
-OVERSIZE_BEHS = ["oversize_fail:K1", "oversize_metadata"]
+# 'full' family only: responses just over the *configured* max_detail_length flowing through the evaluator, and
+# the remaining falsy return values that are not responses
+EXTRA_BEHS = ["oversize_fail:K1", "oversize_metadata", "nonresp_emptystr", "nonresp_emptydict", "nonresp_false",
+              "nonresp_emptylist"]
+NONRESP = {"nonresp_str": "K1", "nonresp_zero": 0, "nonresp_emptystr": "", "nonresp_emptydict": {},
+           "nonresp_false": False, "nonresp_emptylist": []}
 UNMET_KINDS = ("unmet_req", "unmet_any", "unmet_both")
-ERROR_KINDS = ("nonresp_dict", "nonresp_str", "nonresp_zero", "raise", "invalid")
+ERROR_KINDS = ("nonresp_dict", "raise", "invalid") + tuple(NONRESP)
+ODD_KEY = "K%s|é'\"\\ x"
 SELECT_KINDS = ["fail:K1", "pass:K1", "info:K1", "fingerprint:K1", "none", "metadata", "metadata_key:K1",
                 "unmet_req", "raise"]                            # one representative per place in the output
 IMPL_TYPES = ["rule", "info", "pass", "none", "metadata", "fingerprint"]     # values of show_rules at the Impl level
 CLI_OF = {"rule": "fail"}                                                  # '-S fail' is spelt 'rule' at the Impl level
-A_DRIVERS = ["single-serial", "single-incremental", "json", "json-render", "yaml"]
+A_DRIVERS = ["single-serial", "single-incremental", "insights-serial", "json", "json-render", "yaml"]
 S_DRIVERS = ["json", "json-adapter", "yaml", "yaml-adapter"]
+LIVE_DRIVERS = ("single-serial", "single-incremental", "insights-serial")    # return live python objects
 
 _ST = {"beh": {}, "dep": {}, "calls": []}
 _PAL = None
@@ -123,14 +179,21 @@ def _split(beh):
     return kind, (key or None)
 
 
-def rule_name(slot, deco):
-    m, stem = SLOTS[slot]
-    return "%s.%s_%s" % (MOD[m], stem, deco)
+def rule_name(idx):
+    m, name, _ = RULES[idx]
+    return "%s.%s" % (MODS[m], name)
 
 
-def dep_names(slot):
-    m = SLOTS[slot][0]
-    return {"req": "%s.req%d" % (MOD[m], slot), "alt": "%s.alt%d" % (MOD[m], slot), "never": "%s.never" % MOD[m]}
+def dep_names(idx):
+    m = RULES[idx][0]
+    return {"req": "%s.req%d" % (MODS[m], idx), "alt": "%s.alt%d" % (MODS[m], idx), "never": "%s.never" % MODS[m]}
+
+
+def present_rules(desc):
+    """[(index, behaviour, decoration)] of a rule-set descriptor {"rules": [...slots...], "extra": [[idx, beh]...]}."""
+    out = [(slot, r[0], r[1]) for slot, r in enumerate(desc.get("rules") or []) if r is not None]
+    out += [(idx, beh, fixed_deco(idx)) for idx, beh in (desc.get("extra") or [])]
+    return out
 
 
 # ---- the palette of real components -----------------------------------------------------------
@@ -160,6 +223,27 @@ def _safe(x):
     return repr(x)
 
 
+def _same(a, b):
+    """Equality that does not confuse 0 / False / None / "" / 1 / True, nor None and 'None' keys."""
+    if isinstance(a, bool) or isinstance(b, bool):
+        return isinstance(a, bool) and isinstance(b, bool) and a == b
+    if isinstance(a, dict) and isinstance(b, dict):
+        if len(a) != len(b):
+            return False
+        for k, v in a.items():
+            hit = [k2 for k2 in b if _same(k, k2)]
+            if not hit or not _same(v, b[hit[0]]):
+                return False
+        return True
+    if isinstance(a, (list, tuple)) and isinstance(b, (list, tuple)):
+        return len(a) == len(b) and all(_same(x, y) for x, y in zip(a, b))
+    if isinstance(a, str) and isinstance(b, str):
+        return a == b
+    if a is None or b is None:
+        return a is b
+    return type(a) is type(b) and a == b
+
+
 def _act(slot):
     from insights.core import plugins as P
     from insights.core.exceptions import SkipComponent
@@ -179,10 +263,8 @@ def _act(slot):
         return None
     if kind == "nonresp_dict":
         return {"type": "rule", "error_key": "K1", "slot": slot}      # response-shaped, but not a Response
-    if kind == "nonresp_str":
-        return "K1"
-    if kind == "nonresp_zero":
-        return 0
+    if kind in NONRESP:
+        return NONRESP[kind]
     if kind == "raise":
         raise ValueError("rule body failed")
     if kind == "invalid":
@@ -194,9 +276,9 @@ def _act(slot):
 
 
 class _Body(object):
-    """The body of a palette rule: a callable decorated by the real ``@rule``.  Its hash is the slot
-    number, so the engine's set iteration (toposort levels, subgraph frontier) visits the rules of a
-    case in slot order in every process - an order-dependent defect then reproduces from the case
+    """The body of a palette rule: a callable decorated by the real ``@rule``.  Its hash is the palette
+    index, so the engine's set iteration (toposort levels, subgraph frontier) visits the rules of a
+    case in index order in every process - an order-dependent defect then reproduces from the case
     descriptor alone.  (Plain functions hash by address.)"""
 
     def __init__(self, slot, name, module):
@@ -205,7 +287,7 @@ class _Body(object):
         self.__module__ = module
         self.__doc__ = None
 
-    def __call__(self, req, alt, never):
+    def __call__(self, *deps):
         _ST["calls"].append(self.slot)
         return _act(self.slot)
 
@@ -223,25 +305,23 @@ class _Body(object):
 
 
 def _pal():
-    """Creates (once per process) the synthetic modules, the dependency components and one real
-    @rule-decorated callable per (slot, decoration).  Rule i is declared ``@rule(req_i, [alt_i, never_M])``:
-    never_M always skips (shared by the slots of a module, which also joins them into one subgraph
-    for the incremental driver), req_i / alt_i are present unless the case table says otherwise."""
+    """Creates (once per process) the synthetic modules, the dependency components and the real
+    @rule-decorated callables.  A 'std' rule i is declared ``@rule(req_i, [alt_i, never_M])``: never_M
+    always skips (shared by the rules of a module, which also joins them into one subgraph for the
+    incremental driver), req_i / alt_i are present unless the case table says otherwise.  The four
+    slots exist in four decorations each (same qualified name; only one of them is in a graph)."""
     global _PAL
     if _PAL is not None:
         return _PAL
     from insights.core import dr
     from insights.core.plugins import rule, component
     from insights.core.exceptions import SkipComponent
-    pkg = types.ModuleType(PKG)
-    pkg.__path__ = []
-    sys.modules[PKG] = pkg
-    mods = {}
-    for m, name in MOD.items():
+    for name in [PKG, PKG + ".sub"] + sorted(MODS.values()):
         mod = types.ModuleType(name)
+        mod.__path__ = []
         sys.modules[name] = mod
-        setattr(pkg, name.rsplit(".", 1)[1], mod)
-        mods[m] = mod
+        if "." in name:
+            setattr(sys.modules[name.rsplit(".", 1)[0]], name.rsplit(".", 1)[1], mod)
 
     def mkdep(m, full, always_absent=False):
         name = full.rsplit(".", 1)[1]
@@ -251,32 +331,37 @@ def _pal():
                 raise SkipComponent("absent by case table")
             return full
         f.__name__ = f.__qualname__ = name
-        f.__module__ = MOD[m]
-        setattr(mods[m], name, f)
+        f.__module__ = MODS[m]
+        setattr(sys.modules[MODS[m]], name, f)
         return component()(f)
 
-    def mkrule(slot, deco, req, alt, never):
-        m = SLOTS[slot][0]
-        f = _Body(slot, rule_name(slot, deco).rsplit(".", 1)[1], MOD[m])
-        setattr(mods[m], f.__name__, f)
-        tags, links = DECOS[deco]
+    def mkrule(idx, deco, deps):
+        m, name, _ = RULES[idx]
+        f = _Body(idx, name, MODS[m])
+        setattr(sys.modules[MODS[m]], name, f)
+        tags, links = DECOS[deco][0], DECOS[deco][1]
         kw = {}
-        if tags:
-            kw["tags"] = list(tags)
-        if links:
+        if tags is not None:
+            kw["tags"] = type(tags)(tags)
+        if links is not None:
             kw["links"] = dict((k, list(v)) for k, v in links.items())
-        return rule(req, [alt, never], **kw)(f)
+        return rule(*deps, **kw)(f)
 
-    never = dict((m, mkdep(m, "%s.never" % MOD[m], True)) for m in MOD)
+    never = dict((m, mkdep(m, "%s.never" % MODS[m], True)) for m in MODS)
     rules, graphs = {}, {}
-    for slot in range(len(SLOTS)):
-        m = SLOTS[slot][0]
-        dn = dep_names(slot)
-        req, alt = mkdep(m, dn["req"]), mkdep(m, dn["alt"])
-        for deco in DECO_ORDER:
-            fn = mkrule(slot, deco, req, alt, never[m])
-            rules[(slot, deco)] = fn
-            graphs[(slot, deco)] = dr.get_dependency_graph(fn)
+    for idx in sorted(RULES):
+        m, _, shape = RULES[idx]
+        if shape == "std":
+            dn = dep_names(idx)
+            deps = [mkdep(m, dn["req"]), [mkdep(m, dn["alt"]), never[m]]]
+        elif shape == "on_rule":
+            deps = [rules[(0, "p")]]
+        else:
+            deps = []
+        for deco in (DECO_ORDER if idx < N_SLOTS else [fixed_deco(idx)]):
+            fn = mkrule(idx, deco, deps)
+            rules[(idx, deco)] = fn
+            graphs[(idx, deco)] = dr.get_dependency_graph(fn)
     _PAL = {"rules": rules, "graphs": graphs}
     return _PAL
 
@@ -315,132 +400,187 @@ def _impl_show(case):
     return list(case.get("show") or [])
 
 
-def _execute(case):
-    """Runs the driver of the case on a fresh broker. -> (response or None, exceptions-by-name, error or None)"""
-    from insights.core import dr
+def _setup(desc):
+    """Fills the behaviour tables for one rule-set descriptor. -> (graph, rules to disable)"""
     pal = _pal()
-    rules = case["rules"]
-    driver = case["driver"]
-    missing = bool(case.get("missing"))
-    show = _impl_show(case)
-    _ST["beh"], _ST["dep"], _ST["calls"] = {}, {}, []
-    graph = {}
-    disabled = []
-    for slot, r in enumerate(rules):
-        if r is None:
-            continue
-        beh, deco = r
+    _ST["beh"], _ST["dep"] = {}, {}
+    graph, disabled = {}, []
+    for idx, beh, deco in present_rules(desc):
         kind = _split(beh)[0]
-        fn = pal["rules"][(slot, deco)]
-        _ST["beh"][slot] = beh
-        if kind == "unmet_req":
-            _ST["dep"][dep_names(slot)["req"]] = False
-        elif kind == "unmet_any":
-            _ST["dep"][dep_names(slot)["alt"]] = False
-        elif kind == "unmet_both":
-            _ST["dep"][dep_names(slot)["req"]] = False
-            _ST["dep"][dep_names(slot)["alt"]] = False
-        elif kind == "disabled":
+        fn = pal["rules"][(idx, deco)]
+        _ST["beh"][idx] = beh
+        if kind in UNMET_KINDS and RULES[idx][2] != "std":
+            raise ValueError("unmet dependencies need the standard declaration shape")
+        if kind in ("unmet_req", "unmet_both"):
+            _ST["dep"][dep_names(idx)["req"]] = False
+        if kind in ("unmet_any", "unmet_both"):
+            _ST["dep"][dep_names(idx)["alt"]] = False
+        if kind == "disabled":
             disabled.append(fn)
-        for k, v in pal["graphs"][(slot, deco)].items():
+        for k, v in pal["graphs"][(idx, deco)].items():
             graph.setdefault(k, set()).update(v)
     if not graph:
         raise ValueError("the empty rule set is outside the space (dr.run would fall back to every component)")
-    broker = dr.Broker()
-    resp, err = None, None
-    try:
-        for fn in disabled:
-            dr.set_enabled(fn, False)
-        try:
-            resp = _drive(driver, broker, graph, missing, show, case)
-        except Exception as ex:
-            err = "%s: %s" % (type(ex).__name__, ex)
-    finally:
-        for fn in disabled:
-            dr.ENABLED.pop(fn, None)
-        _ST["beh"], _ST["dep"] = {}, {}
-    exc = dict((dr.get_name(k), len(v)) for k, v in broker.exceptions.items() if v)
-    return resp, exc, err
+    return graph, disabled
 
 
-def _drive(driver, broker, graph, missing, show, case):
-    from insights.core import dr
-    if driver == "single-serial" or driver == "single-incremental":
-        from insights.core.evaluators import SingleEvaluator
-        ev = SingleEvaluator(broker, stream=io.StringIO(), incremental=(driver == "single-incremental"))
-        return ev.process(graph)
-    buf = io.StringIO()
-    if driver in ("json", "json-render"):
-        from insights.formats._json import JsonFormat
-        fmt = JsonFormat(broker, missing, driver == "json-render", show, stream=buf)
-        with fmt:
-            dr.run(graph, broker=broker)
-        return json.loads(buf.getvalue())
-    if driver == "yaml":
-        from insights.formats._yaml import YamlFormat
-        fmt = YamlFormat(broker, missing, show, stream=buf)
-        with fmt:
-            dr.run(graph, broker=broker)
-        return _yaml_load(buf.getvalue())
-    if driver in ("json-adapter", "yaml-adapter"):
-        # the way insights.run() uses a formatter: Adapter(args); preprocess(broker); run; postprocess(broker)
-        if driver == "json-adapter":
-            from insights.formats._json import JsonFormatterAdapter as Adapter, JsonFormat as Impl
+class _Driver(object):
+    """One evaluator / formatter object on one broker; run(graph) -> response of that run."""
+
+    def __init__(self, case, broker):
+        self.driver = driver = case["driver"]
+        self.broker = broker
+        missing = bool(case.get("missing"))
+        show = _impl_show(case)
+        self.obj = self.adapter = None
+        if driver in ("single-serial", "single-incremental"):
+            from insights.core.evaluators import SingleEvaluator
+            self.obj = SingleEvaluator(broker, stream=io.StringIO(), incremental=(driver == "single-incremental"))
+        elif driver == "insights-serial":
+            from insights.core.evaluators import InsightsEvaluator
+            self.obj = InsightsEvaluator(broker, system_id="sid-1", stream=io.StringIO())
+        elif driver in ("json", "json-render"):
+            from insights.formats._json import JsonFormat
+            self.obj = JsonFormat(broker, missing, driver == "json-render", show, stream=io.StringIO())
+        elif driver == "yaml":
+            from insights.formats._yaml import YamlFormat
+            self.obj = YamlFormat(broker, missing, show, stream=io.StringIO())
+        elif driver in ("json-adapter", "yaml-adapter"):
+            if driver == "json-adapter":
+                from insights.formats._json import JsonFormatterAdapter as Adapter
+            else:
+                from insights.formats._yaml import YamlFormatterAdapter as Adapter
+            cli = [CLI_OF.get(t, t) for t in show] or None
+            args = argparse.Namespace(missing=missing, render_content=False, show_rules=cli,
+                                      fail_only=bool(case.get("fail_only")), plugins=None)
+            self.adapter = Adapter(args)
         else:
-            from insights.formats._yaml import YamlFormatterAdapter as Adapter, YamlFormat as Impl
-        cli = [CLI_OF.get(t, t) for t in show] or None
-        args = argparse.Namespace(missing=missing, render_content=False, show_rules=cli, fail_only=False,
-                                  plugins=None)
-        ad = Adapter(args)
-        ad.preprocess(broker)
-        import inspect
-        default_sink = inspect.signature(Impl.__init__).parameters["stream"].default   # the sys.stdout captured by the signature
-        if ad.formatter.stream is default_sink:
-            ad.formatter.stream = buf                          # only the default sink is redirected
-        dr.run(graph, broker=broker)
-        ad.postprocess(broker)
+            raise ValueError(driver)
+
+    def run(self, graph):
+        from insights.core import dr
+        driver = self.driver
+        if driver in LIVE_DRIVERS:
+            return self.obj.process(graph)
+        buf = io.StringIO()
+        if self.adapter is not None:
+            # the way insights.run() uses a formatter: Adapter(args); preprocess(broker); run; postprocess(broker)
+            import inspect
+            ad = self.adapter
+            ad.preprocess(self.broker)
+            default_sink = inspect.signature(type(ad.formatter).__init__).parameters["stream"].default
+            if ad.formatter.stream is default_sink:          # the sys.stdout captured by the signature:
+                ad.formatter.stream = buf                    # only the default sink is redirected
+            dr.run(graph, broker=self.broker)
+            ad.postprocess(self.broker)
+        else:
+            self.obj.stream = buf
+            with self.obj:
+                dr.run(graph, broker=self.broker)
         text = buf.getvalue()
-        return json.loads(text) if driver == "json-adapter" else _yaml_load(text)
-    raise ValueError(driver)
+        return json.loads(text) if driver.startswith("json") else _yaml_load(text)
 
 
-def shown_types(case):
-    """What the options select, as documented by the option help and the comments of
-    get_response_of_types: no -S = every type except 'none'; -S = exactly the listed types;
-    skips iff -m."""
+def _execute(case):
+    """Runs the case (one step, or two steps for a history) against the real code.
+    -> {"resp", "exc": exceptions by rule name, "in_broker": names of palette rules holding a value, "err"}"""
+    from insights.core import dr
+    steps = [case] if not case.get("before") else [case["before"], case]
+    history = case.get("history", "fresh")
+    _ST["calls"] = []
+    broker = drv = None
+    resp, err = None, None
+    for n, desc in enumerate(steps):
+        last = n == len(steps) - 1
+        graph, disabled = _setup(desc)
+        if broker is None or history == "fresh":
+            broker = dr.Broker()
+        if drv is None or history != "same-evaluator":
+            drv = _Driver(case, broker)
+        try:
+            for fn in disabled:
+                dr.set_enabled(fn, False)
+            try:
+                r = drv.run(graph)
+                if last:
+                    resp = r
+            except Exception as ex:
+                err = "%s: %s" % (type(ex).__name__, ex)
+        finally:
+            for fn in disabled:
+                dr.ENABLED.pop(fn, None)
+            _ST["beh"], _ST["dep"] = {}, {}
+        if err is not None:
+            break
+    exc = dict((dr.get_name(k), len(v)) for k, v in broker.exceptions.items() if v)
+    in_broker = set(dr.get_name(k) for k in broker.instances if isinstance(k, _Body))
+    return {"resp": resp, "exc": exc, "in_broker": in_broker, "err": err}
+
+
+def selections(case):
+    """The acceptable readings of what the options select, as [(shown types, skips shown)].
+    Documented by the option help and the comments of get_response_of_types: no -S = every type
+    except 'none'; -S = exactly the listed types; skips iff -m.  -F: dropped with -m (help and man
+    page agree); otherwise 'fail only' (help) or dropped because a format is in use (man page)."""
     driver = case["driver"]
-    if driver.startswith("single"):
-        return set(IMPL_TYPES), True
+    if driver in LIVE_DRIVERS:
+        return [(set(IMPL_TYPES), True)]
     missing = bool(case.get("missing"))
     show = _impl_show(case)
-    if not show:
-        return set(IMPL_TYPES) - {"none"}, missing
-    return set(show), missing
-
-
-def _is_show_all(case):
-    types_, skips = shown_types(case)
-    return skips and types_ == set(IMPL_TYPES)
+    plain = (set(show) if show else set(IMPL_TYPES) - {"none"}, missing)
+    if case.get("fail_only") and not missing:
+        return [(set(["rule"]), missing), plain]
+    return [plain]
 
 
 def check_rules_case(case):
     """-> (violations [(clause, expected, observed, features)], info dict)"""
-    rules = case["rules"]
-    driver = case["driver"]
-    present = [(slot, r[0], r[1]) for slot, r in enumerate(rules) if r is not None]
-    resp, exc, err = _execute(case)
-    out = []
+    obs = _execute(case)
     info = {"located": 0, "shown": 0, "hidden": 0, "places": set(), "ran": len(_ST["calls"]),
-            "in_slot_order": _ST["calls"] == sorted(_ST["calls"])}
-    if err is not None or not isinstance(resp, dict):
-        feats = {"driver": driver, "error": err if err is not None else "output is not a mapping"}
-        out.append(("formatter:raises" if not driver.startswith("single") else "evaluator:raises",
-                    "the driver reports the evaluation", feats["error"], feats))
+            "in_slot_order": _ST["calls"] == sorted(_ST["calls"]) or bool(case.get("before"))}
+    driver = case["driver"]
+    if obs["err"] is not None or not isinstance(obs["resp"], dict):
+        feats = {"driver": driver, "error": obs["err"] if obs["err"] is not None else "output is not a mapping"}
         info["places"].add("error")
-        return out, info
-    types_, skips_shown = shown_types(case)
-    mode = "accounting" if _is_show_all(case) else "selection"
-    names = dict((rule_name(slot, deco), slot) for slot, _, deco in present)
+        return [("formatter:raises" if driver not in LIVE_DRIVERS else "evaluator:raises",
+                 "the driver reports the evaluation", feats["error"], feats)], info
+    best = None
+    for sel in selections(case):
+        out, inf = _judge(case, obs, sel)
+        if best is None or not out:
+            best = (out, inf)
+        if not out:
+            break
+    info.update(best[1])
+    return best[0], info
+
+
+def _judge(case, obs, sel):
+    driver = case["driver"]
+    history = case.get("history") if case.get("before") else None
+    present = present_rules(case)
+    both_steps = set()
+    if history == "same-evaluator":
+        # one evaluator object = one cumulative report: the rules of both steps are the rules of the evaluation
+        mine = set(i for i, _, _ in present)
+        both_steps = set(i for i, _, _ in present_rules(case["before"]) if i in mine)
+        present = [p for p in present_rules(case["before"]) if p[0] not in mine] + present
+    resp, exc = obs["resp"], obs["exc"]
+    out = []
+    info = {"located": 0, "shown": 0, "hidden": 0, "places": set()}
+    types_, skips_shown = sel
+    show_all = skips_shown and types_ == set(IMPL_TYPES)
+    mode = "accounting" if show_all else "selection"
+    names = dict((rule_name(idx), idx) for idx, _, _ in present)
+
+    def feats_of(kind, idx=None, **kw):
+        f = {"driver": driver, "kind": kind}
+        if history:
+            f["history"] = history
+            if idx is not None:
+                f["rule_in_both_steps"] = idx in both_steps
+        f.update(kw)
+        return f
 
     comp_hits, skip_hits, phantom = {}, {}, []
     for heading, val in resp.items():
@@ -461,52 +601,55 @@ def check_rules_case(case):
                 phantom.append([heading, who])
     if phantom:
         out.append(("accounting:phantom-entry", "every entry belongs to a rule of the evaluation", phantom,
-                    {"driver": driver}))
+                    feats_of("phantom")))
     system = resp.get("system")
     md = system.get("metadata") if isinstance(system, dict) else None
 
     md_contrib, mk_contrib = [], {}
     md_fields, md_oversize = set(["type"]), False
-    for slot, beh, deco in present:
+    for idx, beh, deco in present:
         kind0, key = _split(beh)
         oversize = kind0.startswith("oversize_")
         kind = kind0[len("oversize_"):] if oversize else kind0     # an oversize response is accounted like a small one
-        name = rule_name(slot, deco)
+        name = rule_name(idx)
         found = ["list:%s" % h for h, _ in comp_hits.get(name, [])]
         found += ["skip:%s" % h for h, _ in skip_hits.get(name, [])]
         if name in exc:
             found.append("exception")
-        if isinstance(md, dict) and ("max_detail_length_error" if oversize else "m%d" % slot) in md and \
-                (kind == "metadata" or not oversize):
+        if isinstance(md, dict) and kind == "metadata" and ("max_detail_length_error" if oversize else "m%d" % idx) in md:
             found.append("metadata")
         found.sort()
-        if kind in KEYED or kind == "none":
+        waits_for = None
+        if RULES[idx][2] == "on_rule" and rule_name(0) not in obs["in_broker"]:
+            waits_for = rule_name(0)               # its dependency (another rule) holds no value: skip entry
+        if waits_for is not None or kind in UNMET_KINDS:
+            expected = ["skip:skips"] if skips_shown else []
+            hideable = True
+        elif kind in KEYED or kind == "none":
             type_ = KEYED[kind][0] if kind in KEYED else "none"
             expected = ["list:%s" % HEADING[type_]] if type_ in types_ else []
+            hideable = True
         elif kind == "metadata":
             expected = ["metadata"] if "metadata" in types_ else []
+            hideable = True
             if oversize:
                 md_oversize = True
                 md_fields.add("max_detail_length_error")
             else:
-                md_contrib.append(slot)
-                md_fields.update(["m%d" % slot, "shared"])
-        elif kind in UNMET_KINDS:
-            expected = ["skip:skips"] if skips_shown else []
+                md_contrib.append(idx)
+                md_fields.update(["m%d" % idx, "shared"])
         elif kind in ERROR_KINDS:
-            expected = ["exception"]
+            expected, hideable = ["exception"], False
         else:                               # metadata_key (checked below), deliberate skip, disabled
-            expected = []
+            expected, hideable = [], False
             if kind == "metadata_key":
-                mk_contrib.setdefault(key, []).append("v%d" % slot)
-        hideable = kind in KEYED or kind in ("none", "metadata") or kind in UNMET_KINDS
+                mk_contrib.setdefault(key, []).append("v%d" % idx)
         if found:
             info["located"] += 1
             info["places"].update(f.split(":")[0] + ":" + kind.split("_")[0] if f.startswith("list") else f for f in found)
         if hideable:
             info["shown" if expected else "hidden"] += 1
         if found != expected:
-            feats = {"driver": driver, "kind": kind0}
             if mode == "selection" and hideable and not expected and found:
                 clause = "selection:shown-though-unselected"
             elif mode == "selection" and hideable and expected and not found:
@@ -519,46 +662,50 @@ def check_rules_case(case):
                 clause = "accounting:duplicate"
             else:
                 clause = "accounting:wrong-place"
-            out.append((clause, {"rule": name, "places": expected}, {"rule": name, "places": found}, feats))
+            out.append((clause, {"rule": name, "places": expected}, {"rule": name, "places": found},
+                        feats_of(kind0, idx)))
             continue
         # ---- well-formedness of the one entry -------------------------------------------------
         if expected and expected[0].startswith("list:"):
             e = comp_hits[name][0][1]
-            tags, links = DECOS[deco]
+            want_tags, want_links = DECOS[deco][2], DECOS[deco][3]
             want_key = key if kind in KEYED else "NONE_KEY"
             key_name = KEYED[kind][2] if kind in KEYED else "none_key"
-            base = MOD[SLOTS[slot][0]].rsplit(".", 1)[1]
+            base = MODS[RULES[idx][0]].rsplit(".", 1)[1]
+            got_tags = e.get("tags") or []
             checks = [("key", want_key, e.get("key")),
                       ("type", type_, e.get("type")),
-                      ("tags", sorted(tags), sorted(e.get("tags") or [])),
-                      ("links", links or {}, e.get("links") or {}),
+                      ("tags", sorted(want_tags), sorted(got_tags) if isinstance(got_tags, list) else got_tags),
+                      ("links", want_links, e.get("links") or {}),
                       ("id", "%s|%s" % (base, want_key), e.get("%s_id" % type_))]
             if "details" in e:
                 want_d = {"type": type_, key_name: want_key}
                 if oversize:            # the stub keeps only type, key and the offending length
-                    want_d = _oversize_stub(slot, want_d)
+                    want_d = _oversize_stub(idx, want_d)
                 elif kind in KEYED:
-                    want_d["slot"] = slot
+                    want_d["slot"] = idx
                 got_d = dict(e["details"]) if isinstance(e["details"], dict) else e["details"]
                 checks.append(("details", want_d, got_d))
             for field, want, got in checks:
-                if want != got:
+                if not _same(want, got):
                     out.append(("entry:%s" % field, {"rule": name, field: want}, {"rule": name, field: got},
-                                {"driver": driver, "kind": kind0, "field": field}))
+                                feats_of(kind0, idx, field=field)))
         elif expected and expected[0].startswith("skip:"):
             e = skip_hits[name][0][1]
-            dn = dep_names(slot)
-            m_req = [dn["req"]] if kind in ("unmet_req", "unmet_both") else []
-            m_any = [[dn["alt"], dn["never"]]] if kind in ("unmet_any", "unmet_both") else []
-            miss = m_req + [d for g in m_any for d in g]
-            met = [d for d in (dn["req"], dn["alt"]) if d not in miss]
+            if waits_for is not None:
+                m_req, m_any = [waits_for], []
+            else:
+                dn = dep_names(idx)
+                m_req = [dn["req"]] if kind in ("unmet_req", "unmet_both") else []
+                m_any = [[dn["alt"], dn["never"]]] if kind in ("unmet_any", "unmet_both") else []
+            miss = sorted(m_req + [d for g in m_any for d in g])
             text = e.get("details") if isinstance(e.get("details"), str) else json.dumps(
                 dict((k, v) for k, v in e.items() if k != "rule_fqdn"), default=repr, sort_keys=True)
-            bad = [d for d in miss if d not in text] + ["+" + d for d in met if d in text]
-            if bad:
+            named = sorted(set(re.findall(r"'([^']*)'", text)))           # exact names, not substrings
+            if named != miss:
                 out.append(("skip:names-missing-dependencies", {"rule": name, "missing": miss},
-                            {"rule": name, "entry": text, "wrong": bad}, {"driver": driver, "kind": kind}))
-            attr = getattr(e, "missing", None)          # the live skip object (SingleEvaluator drivers only)
+                            {"rule": name, "entry": text, "named": named}, feats_of(kind0, idx)))
+            attr = getattr(e, "missing", None)          # the live skip object (drivers returning python objects)
             if attr is not None:
                 from insights.core import dr
                 try:
@@ -568,81 +715,99 @@ def check_rules_case(case):
                 want_m = [m_req, [sorted(g) for g in m_any]]
                 if got_m != want_m:
                     out.append(("skip:missing-attribute", {"rule": name, "missing": want_m},
-                                {"rule": name, "missing": got_m}, {"driver": driver, "kind": kind}))
+                                {"rule": name, "missing": got_m}, feats_of(kind0, idx)))
         elif expected == ["metadata"] and oversize:
-            want_n = _oversize_stub(slot, {"type": "metadata"})["max_detail_length_error"]
-            if md.get("max_detail_length_error") != want_n:
+            want_n = _oversize_stub(idx, {"type": "metadata"})["max_detail_length_error"]
+            if not _same(md.get("max_detail_length_error"), want_n):
                 out.append(("metadata:field-value", {"max_detail_length_error": want_n},
-                            {"max_detail_length_error": md.get("max_detail_length_error")},
-                            {"driver": driver, "kind": kind0}))
+                            {"max_detail_length_error": md.get("max_detail_length_error")}, feats_of(kind0, idx)))
         elif expected == ["metadata"]:
-            if md.get("m%d" % slot) != slot:
-                out.append(("metadata:field-value", {"m%d" % slot: slot}, {"m%d" % slot: md.get("m%d" % slot)},
-                            {"driver": driver, "kind": kind}))
-    if md_contrib and "metadata" in types_ and isinstance(md, dict) and md.get("shared") not in md_contrib:
+            if not _same(md.get("m%d" % idx), idx):
+                out.append(("metadata:field-value", {"m%d" % idx: idx}, {"m%d" % idx: md.get("m%d" % idx)},
+                            feats_of(kind0, idx)))
+    if md_contrib and "metadata" in types_ and isinstance(md, dict) and \
+            not any(_same(md.get("shared"), i) for i in md_contrib):
         out.append(("metadata:shared-field", {"shared": "one of %s" % md_contrib}, {"shared": md.get("shared")},
-                    {"driver": driver, "kind": "metadata"}))
+                    feats_of("metadata")))
     # an oversize metadata response is a stub of type + length: nothing else of it may reach system.metadata
     # (checked only when such a rule is present; a 'type' member is tolerated)
     if md_oversize and "metadata" in types_ and isinstance(md, dict):
         foreign = [k for k in md if k not in md_fields]
         if foreign:
             out.append(("metadata:stub-keeps-only-type-and-length", sorted(md_fields - set(["type"])),
-                        sorted(map(repr, md)), {"driver": driver, "kind": "oversize_metadata"}))
-    # metadata keys: demanded only where nothing filters the response (see module docstring)
-    if driver.startswith("single") or not _impl_show(case):
-        for k, vals in sorted(mk_contrib.items()):
-            if resp.get(k) not in vals:
-                out.append(("metadata_key:value", {k: "one of %s" % vals}, {k: resp.get(k)},
-                            {"driver": driver, "kind": "metadata_key"}))
-            else:
-                info["located"] += 1
-                info["places"].add("metadata_key")
+                        sorted(map(repr, md)), feats_of("oversize_metadata")))
+    # metadata keys: demanded where nothing filters the response (live drivers; every type selected; or no -S,
+    # which only drops the 'none' heading)
+    show = _impl_show(case)
+    for k, vals in sorted(mk_contrib.items()):
+        if not (driver in LIVE_DRIVERS or show_all or (not show and not case.get("fail_only") and k != "none")):
+            continue
+        if not any(_same(resp.get(k), v) for v in vals):
+            out.append(("metadata_key:value", {k: "one of %s" % vals}, {k: resp.get(k)},
+                        feats_of("metadata_key", key_is_section_name=k in SECTION_NAMES)))
+        else:
+            info["located"] += 1
+            info["places"].add("metadata_key")
     return out, info
 
 
-# ---- Part B: constructors ----------------------------------------------------------------------
+# ---- constructors -------------------------------------------------------------------------------
 
-KEY_SHAPES = {"none": None, "empty": "", "str": "K", "int": 5, "bytes": b"K", "list": ["K"]}
-KEY_ORDER = ["none", "empty", "str", "int", "bytes", "list"]
+KEY_SHAPES = {"none": None, "empty": "", "str": "K", "int": 5, "bytes": b"K", "list": ["K"],
+              "zero": 0, "false": False, "emptylist": [], "space": " ", "pct": "K%s", "uni": "Ké", "quote": "K'\"\\"}
+KEY_ORDER = ["none", "empty", "str", "int", "bytes", "list", "zero", "false", "emptylist", "space", "pct", "uni", "quote"]
+VALID_KEYS = ("str", "space", "pct", "uni", "quote")
 B_CLASSES = ["make_response", "make_fail", "make_pass", "make_info", "make_fingerprint",
              "make_metadata_key", "make_metadata", "make_none"]
-LIMIT = 64
+LIMIT = 96
+FALSY_VALUES = {"v_zero": 0, "v_emptystr": "", "v_emptylist": [], "v_none": None, "v_false": False,
+                "v_uni3": "\u00e9\u00e9\u00e9"}          # fixed small values: the falsy ones and a short non-ASCII string
+SIZED = ("str", "int", "uni")
 
 
 def _payload(kind, n):
+    if kind in FALSY_VALUES:
+        return FALSY_VALUES[kind]
     n = max(n, 1)
-    return "a" * n if kind == "str" else int("1" * n)
+    if kind == "str":
+        return "a" * n
+    if kind == "uni":
+        return "é" * n
+    return int("1" * n)
 
 
 def constructor_cases(cls):
     if cls == "make_none":
         yield {"part": "B", "cls": cls}
+        yield {"part": "B", "cls": cls, "limit": 0}
         return
     sizes = [LIMIT + d for d in (-2, -1, 0, 1, 2)]
+
+    def payloads(kw):
+        for pk in SIZED:
+            for L in sizes:
+                yield {"kw": kw, "payload": pk, "length": L}
+        for pk in sorted(FALSY_VALUES):
+            yield {"kw": kw, "payload": pk}
+        yield {"kw": kw, "payload": "str", "length": 120, "limit": 0}
     if cls == "make_metadata":
-        for kw in (None, "type", "x"):
-            if kw is None:
-                yield {"part": "B", "cls": cls, "kw": None}
-                continue
-            for pk in ("str", "int"):
-                for L in sizes:
-                    yield {"part": "B", "cls": cls, "kw": kw, "payload": pk, "length": L}
+        yield {"part": "B", "cls": cls, "kw": None}
+        yield {"part": "B", "cls": cls, "kw": None, "limit": 0}
+        for kw in ("type", "x", "Type"):
+            for p in payloads(kw):
+                yield dict({"part": "B", "cls": cls}, **p)
         return
     if cls == "make_metadata_key":
         for key in KEY_ORDER:
-            for pk in ("str", "int"):
-                for L in sizes:
-                    yield {"part": "B", "cls": cls, "key": key, "kw": "value", "payload": pk, "length": L}
+            for p in payloads("value"):
+                yield dict({"part": "B", "cls": cls, "key": key}, **p)
         return
     for key in KEY_ORDER:
-        for kw in (None, "type", "own", "x"):
-            if kw is None:
-                yield {"part": "B", "cls": cls, "key": key, "kw": None}
-                continue
-            for pk in ("str", "int"):
-                for L in sizes:
-                    yield {"part": "B", "cls": cls, "key": key, "kw": kw, "payload": pk, "length": L}
+        yield {"part": "B", "cls": cls, "key": key, "kw": None}
+        yield {"part": "B", "cls": cls, "key": key, "kw": None, "limit": 0}
+        for kw in ("type", "own", "x", "own_upper", "Type"):
+            for p in payloads(kw):
+                yield dict({"part": "B", "cls": cls, "key": key}, **p)
 
 
 def check_constructor_case(case):
@@ -651,16 +816,18 @@ def check_constructor_case(case):
     from insights.core import plugins as P
     cls = getattr(P, case["cls"])
     name = case["cls"]
+    limit = case.get("limit", LIMIT)
     type_, key_name = cls.response_type, cls.key_name
     key_shape = case.get("key")
     key = KEY_SHAPES[key_shape] if key_shape is not None else None
     kw = case.get("kw")
-    feats = {"cls": name, "key": key_shape, "kw": kw}
+    feats = {"cls": name, "key": key_shape, "kw": kw, "payload": case.get("payload")}
     out = []
     info = {"outcome": None, "fired": False}
 
     # the argument set and the dict a well-formed, unabridged response would be
-    kwname = {"own": key_name, "value": "value"}.get(kw, kw)
+    kwname = {"own": key_name, "value": "value", "own_upper": (key_name or "").upper()}.get(kw, kw)
+    retained_kw = kw in ("x", "value", "own_upper", "Type")
     base = {"type": type_}
     if name == "make_none":
         base[key_name] = "NONE_KEY"
@@ -668,23 +835,26 @@ def check_constructor_case(case):
         base[key_name] = key
     payload = None
     if kw is not None:
-        # size the payload so that len(str(<full response dict>)) is exactly the requested length
-        probe = dict(base)
-        probe[kwname if kw in ("x", "value") else "x"] = _payload(case["payload"], 1)
-        n = case["length"] - (len(str(probe)) - 1)
-        payload = _payload(case["payload"], n)
+        if case.get("length") is None:
+            payload = _payload(case["payload"], 0)
+        else:
+            # size the payload so that len(str(<full response dict>)) is exactly the requested length
+            probe = dict(base)
+            probe[kwname if retained_kw else "x"] = _payload(case["payload"], 1)
+            n = case["length"] - (len(str(probe)) - 1)
+            payload = _payload(case["payload"], n)
     full = dict(base)
-    if kw in ("x", "value"):
+    if retained_kw:
         full[kwname] = payload
-    measured = len(str(full))
-    if kw in ("x", "value") and key_shape in (None, "str", "empty") and measured != case["length"]:
-        raise RuntimeError("harness: payload sizing is off: %r != %r" % (measured, case["length"]))
+    chars = len(str(full))
+    nbytes = len(str(full).encode("utf-8"))
+    if retained_kw and case.get("length") is not None and key_shape in (None,) + VALID_KEYS and chars != case["length"]:
+        raise RuntimeError("harness: payload sizing is off: %r != %r" % (chars, case["length"]))
 
-    invalid = key_shape in ("none", "int", "bytes", "list") or kw in ("type", "own")
-    either = key_shape == "empty" and not invalid
+    invalid = (key_shape is not None and key_shape not in VALID_KEYS) or kw in ("type", "own")
 
     saved = settings.defaults["max_detail_length"]
-    settings.defaults["max_detail_length"] = LIMIT
+    settings.defaults["max_detail_length"] = limit
     try:
         try:
             if name == "make_none":
@@ -704,7 +874,7 @@ def check_constructor_case(case):
     if raised is not None:
         info["outcome"] = "rejected:%s" % raised
         info["fired"] = True
-        if not invalid and not either:
+        if not invalid:
             out.append(("constructor:valid-rejected", "a response", raised, feats))
         return out, info
     if invalid:
@@ -714,26 +884,35 @@ def check_constructor_case(case):
     if not isinstance(got, P.Response) or not isinstance(got, dict):
         out.append(("constructor:result-shape", "a Response (dict)", repr(type(got)), feats))
         return out, info
-    stub = dict(base)
-    stub["max_detail_length_error"] = measured
     g = dict(got)
-    oversize = measured > LIMIT
+    stubs = []
+    for n in sorted(set([chars, nbytes])):
+        s = dict(base)
+        s["max_detail_length_error"] = n
+        stubs.append(s)
+    is_stub = any(_same(g, s) for s in stubs)
+    is_full = _same(g, full)
+    must_stub = chars > limit                    # over the limit in characters, hence also in bytes
+    must_keep = nbytes <= limit                  # within the limit in bytes, hence also in characters
     if name == "make_metadata_key":
-        # exempt from the limit by an explicit override: either form is accepted
-        info["outcome"] = "stub" if g == stub and oversize else "retained"
-        if g != full and not (oversize and g == stub):
+        # exempt from the limit by an explicit override: kept (the code's choice) or, when oversize, stubbed
+        info["outcome"] = "stub" if is_stub and not is_full else "retained"
+        if not is_full and not (is_stub and not must_keep):
             out.append(("constructor:kwargs-not-retained", full, g, feats))
         return out, info
-    if oversize:
-        info["outcome"] = "stub"
-        info["fired"] = True
-        if g != stub:
-            out.append(("constructor:oversize-not-stubbed", stub, g, dict(feats, over_by=measured - LIMIT)))
-    else:
+    if must_stub:
+        info["outcome"], info["fired"] = "stub", True
+        if not is_stub:
+            out.append(("constructor:oversize-not-stubbed", stubs[0], g, dict(feats, over_by=chars - limit)))
+    elif must_keep:
         info["outcome"] = "retained"
-        if g != full:
-            out.append(("constructor:kwargs-not-retained", full, g, dict(feats, under_by=LIMIT - measured)))
-    if key_name and got.get_key() != base[key_name]:
+        if not is_full:
+            out.append(("constructor:kwargs-not-retained", full, g, dict(feats, under_by=limit - nbytes)))
+    else:
+        info["outcome"] = "stub" if is_stub else "retained"
+        if not (is_stub or is_full):
+            out.append(("constructor:kwargs-not-retained", full, g, dict(feats, between_chars_and_bytes=True)))
+    if key_name and not _same(got.get_key(), base[key_name]):
         out.append(("constructor:get-key", base[key_name], got.get_key(), feats))
     return out, info
 
@@ -748,7 +927,7 @@ def _mixed_symbols(slot):
 
 
 def _full_symbols(slot):
-    return [None] + [[b, d] for b in LISTED_BEHS for d in DECO_ORDER] + [[b, "p"] for b in OTHER_BEHS + OVERSIZE_BEHS]
+    return [None] + [[b, d] for b in LISTED_BEHS for d in DECO_ORDER] + [[b, "p"] for b in OTHER_BEHS + EXTRA_BEHS]
 
 
 def _in_mixed_family(rules, mixed_slots):
@@ -778,19 +957,81 @@ def select_multisets(max_size):
     return out
 
 
-def select_options(driver):
+def select_options(driver, n_rules):
     """Every (missing, show_rules subset).  The (missing, all six types) combination of the Impl
-    drivers is part A's and is not repeated.  The deprecated -F switch is left out of the alphabet:
-    its option help ("dropped with -m") and the man page ("dropped with -m or -f") disagree on what
-    it means together with a format."""
+    drivers is part A's and is not repeated.  The adapters also get every combination together with the
+    deprecated -F switch (the YAML adapter only on one-rule sets: the option logic is the shared base
+    class's)."""
     opts = []
-    for missing in (False, True):
-        for k in range(len(IMPL_TYPES) + 1):
-            for sub in itertools.combinations(IMPL_TYPES, k):
-                if driver in ("json", "yaml") and missing and len(sub) == len(IMPL_TYPES):
-                    continue
-                opts.append({"missing": missing, "show": list(sub)})
+    for fail_only in ((False, True) if driver == "json-adapter" or (driver == "yaml-adapter" and n_rules == 1)
+                      else (False,)):
+        for missing in (False, True):
+            for k in range(len(IMPL_TYPES) + 1):
+                for sub in itertools.combinations(IMPL_TYPES, k):
+                    if driver in ("json", "yaml") and missing and len(sub) == len(IMPL_TYPES):
+                        continue
+                    o = {"missing": missing, "show": list(sub)}
+                    if fail_only:
+                        o["fail_only"] = True
+                    opts.append(o)
     return opts
+
+
+def wide_sets():
+    """10, 11, 12 rules with one behaviour each (all the same), and 12 rules failing with K1 except one."""
+    for n in (10, 11, 12):
+        for b in BEHS:
+            yield [[i, b] for i in WIDE[:n]], True
+    for pos in range(12):
+        for b in BEHS:
+            if b != "fail:K1":
+                yield [[i, (b if k == pos else "fail:K1")] for k, i in enumerate(WIDE)], False
+
+
+def small_cases(tier):
+    """Families D, T, K, H (rule-set descriptors with their driver); same in both tiers."""
+    def with_drivers(desc, drivers=A_DRIVERS):
+        for d in drivers:
+            c = dict(desc, driver=d)
+            if d not in LIVE_DRIVERS:
+                c.update(ALL_SHOWN)
+            yield c
+    # D: a rule that depends on a rule
+    for bx in BEHS:
+        for by in ("fail:K1", "none", "raise", "metadata"):
+            for c in with_drivers({"part": "D", "rules": [[bx, "p"]], "extra": [[YDEP, by]]}):
+                yield c
+    # T: declaration shapes and odd keys
+    for b in ("fail:K1", "fail:" + ODD_KEY, "pass:" + ODD_KEY, "none", "metadata_key:" + ODD_KEY):
+        for idx in [NODEPS] + sorted(SHAPED):
+            for c in with_drivers({"part": "T", "rules": [], "extra": [[idx, b]]}):
+                yield c
+        for c in with_drivers({"part": "T", "rules": [[b, "tl"], [b, "tl"]]}):
+            yield c
+    # K: metadata keys named like the sections of the response
+    for name in SECTION_NAMES:
+        for partner in (None, "fail:K1", "pass:K1", "info:K1", "none", "unmet_req"):
+            rules = [["metadata_key:" + name, "p"], [partner, "tl"] if partner else None]
+            for c in with_drivers({"part": "K", "rules": rules}):
+                yield c
+    # H: two-step histories in one process
+    for bx in BEHS:
+        for by in BEHS:                      # fresh broker and evaluator: the second case must not see the first
+            for d in ("single-serial", "json"):
+                c = {"part": "H", "history": "fresh", "before": {"rules": [[bx, "p"]]}, "rules": [[by, "p"]], "driver": d}
+                if d == "json":
+                    c.update(ALL_SHOWN)
+                yield c
+        for by in ("fail:K1", "none", "unmet_req", "raise", "metadata"):
+            for history in ("same-broker", "same-evaluator"):
+                for second in ([[bx, "p"], [by, "tl"]], [None, [by, "tl"]]):
+                    if history == "same-broker" and second[0] is None:
+                        continue             # a new evaluator does not report what only the old graph contained
+                    for d in ("single-serial", "insights-serial", "json", "yaml"):
+                        c = {"part": "H", "history": history, "before": {"rules": [[bx, "p"]]}, "rules": second, "driver": d}
+                        if d not in LIVE_DRIVERS:
+                            c.update(ALL_SHOWN)
+                        yield c
 
 
 def units(tier, seed):
@@ -809,9 +1050,13 @@ def units(tier, seed):
                 us.append({"part": "A", "family": family, "n": n, "c0": c0, "lo": lo, "hi": min(nsym1, lo + step)})
     for driver in S_DRIVERS:
         nms = len(select_multisets(b["select_multiset_max"][driver]))
-        step = 8 if driver == "yaml" else 24
+        step = 8 if driver.startswith("yaml") else 24
         for lo in range(0, nms, step):
             us.append({"part": "S", "driver": driver, "lo": lo, "hi": min(nms, lo + step)})
+    for i in range(4):
+        us.append({"part": "W", "shard": i, "of": 4})
+    for i in range(8):
+        us.append({"part": "small", "shard": i, "of": 8})
     for cls in B_CLASSES:
         us.append({"part": "B", "cls": cls})
     return us
@@ -821,7 +1066,7 @@ def unit_weight(u):
     if u["part"] == "A":
         return 5
     if u["part"] == "S":
-        return 4 if u["driver"] == "yaml" else 2
+        return 4 if u["driver"].startswith("yaml") else 2
     return 1
 
 
@@ -848,7 +1093,7 @@ def run_unit(unit, tier):
                 if driver == "yaml" and n_present > b["yaml_max_rules_part_a"]:
                     continue            # YamlFormat shares handle_result with SingleEvaluator; only the dump differs
                 case = {"part": "A", "rules": rules, "driver": driver}
-                if not driver.startswith("single"):
+                if driver not in LIVE_DRIVERS:
                     case.update(ALL_SHOWN)
                 vio, info = check_rules_case(case)
                 _record(res, case, vio, info["located"] >= 2, "A:" + ",".join(sorted(info["places"])))
@@ -862,8 +1107,10 @@ def run_unit(unit, tier):
     if part == "S":
         driver = unit["driver"]
         ms = select_multisets(b["select_multiset_max"][driver])[unit["lo"]:unit["hi"]]
-        opts = select_options(driver)
+        nopts = 0
         for rules in ms:
+            opts = select_options(driver, len(rules))
+            nopts = max(nopts, len(opts))
             for o in opts:
                 case = {"part": "S", "rules": rules, "driver": driver}
                 case.update(o)
@@ -871,9 +1118,38 @@ def run_unit(unit, tier):
                 _record(res, case, vio, info["shown"] >= 1 and info["hidden"] >= 1,
                         "S:%s" % ("error" if "error" in info["places"] else "%d:%d" % (info["shown"], info["hidden"])))
         res.stat("select_rule_sets_%s" % driver, len(ms))
-        res.maxi("select_options_%s" % driver, len(opts))
+        res.maxi("select_options_%s" % driver, nopts)
         if ms:
             res.samples.append(dict({"part": "S", "rules": ms[0], "driver": driver}, **opts[len(opts) // 3]))
+        return res
+    if part == "W":
+        k = 0
+        for extra, uniform in wide_sets():
+            k += 1
+            if k % unit["of"] != unit["shard"]:
+                continue
+            for driver in A_DRIVERS:
+                if driver in ("yaml", "json-render") and not uniform:
+                    continue
+                case = {"part": "W", "rules": [], "extra": extra, "driver": driver}
+                if driver not in LIVE_DRIVERS:
+                    case.update(ALL_SHOWN)
+                vio, info = check_rules_case(case)
+                _record(res, case, vio, info["located"] >= 2, "W:" + ",".join(sorted(info["places"])))
+                res.stat("cases_bodies_not_run_in_slot_order", 0 if info["in_slot_order"] else 1)
+                res.maxi("max_rules_located_in_one_case", info["located"])
+            res.stat("rule_sets_wide", 1)
+        return res
+    if part == "small":
+        for k, case in enumerate(small_cases(tier)):
+            if k % unit["of"] != unit["shard"]:
+                continue
+            vio, info = check_rules_case(case)
+            nontrivial = info["located"] >= 2 if case["part"] in ("D", "H") else True
+            _record(res, case, vio, nontrivial, "%s:%s" % (case["part"], ",".join(sorted(info["places"]))))
+            res.stat("cases_family_%s" % case["part"], 1)
+            if k < unit["of"]:
+                res.samples.append(case)
         return res
     if part == "B":
         for case in constructor_cases(unit["cls"]):
